@@ -1519,3 +1519,31 @@ func alwaysNonNil(fn *ssa.Function, depth int) bool {
 	})
 	return ok && n > 0
 }
+
+// rres: the results of a return as this path determines them — a result that is the outcome of a walked-through
+// helper is replaced by what the helper returned on this path (and, if that is a phi, by the edge the path took).
+// Results that involve no helper are returned unchanged.
+func rres(path []ssa.Instruction, ret *ssa.Return) []ssa.Value {
+	if curPath == nil {
+		return ret.Results
+	}
+	idx := -1
+	for i := len(path) - 1; i >= 0; i-- {
+		if path[i] == ssa.Instruction(ret) {
+			idx = i
+			break
+		}
+	}
+	if idx < 0 {
+		return ret.Results
+	}
+	out := make([]ssa.Value, len(ret.Results))
+	for i, v := range ret.Results {
+		r := rvI(v, idx)
+		if r != v {
+			r = valueOnPath(r, path)
+		}
+		out[i] = r
+	}
+	return out
+}
